@@ -1,6 +1,6 @@
 (* Model.v — the executable entry points of the implementation model: the fixed user-function
    library (implemented a second time in Go by the runner) and one-call wrappers. *)
-From JP Require Export Json Tree Eval Peg Grammar Text Actions WF.
+From JP Require Export Json Tree Eval Peg Grammar Text Actions WF Spec.
 Open Scope string_scope.
 
 (* ---------- the user-function library of the harness ---------- *)
@@ -46,3 +46,7 @@ Definition parse_path (cfg : config) (parse_float : string -> option num) (regex
 Definition eval_doc (regex_match : string -> string -> bool) (t : node) (doc : value) (st : estate)
   : outcome * estate :=
   eval_run lib_ffun lib_afun regex_match t doc st.
+
+(* the specification (Spec.v) with the same function library: the independent oracle of C01 *)
+Definition spec_doc (regex_match : string -> string -> bool) (t : node) (doc : value) : list res :=
+  spec_results lib_ffun lib_afun regex_match t doc.
